@@ -234,14 +234,7 @@ func checkMain(args []string) {
 			continue
 		}
 		rel, pkgName := pkgRelOf(rep.Key)
-		alpha, n := "a.$*>", 4
-		if d := spec.Domain; d != "" {
-			f := strings.Fields(d)
-			if len(f) >= 2 {
-				alpha = f[0]
-				n, _ = strconv.Atoi(f[1])
-			}
-		}
+		alpha, n := parseDomain(spec.Domain, 4)
 		src := genReplay(w, spec, pkgName, nil, alpha, n)
 		failedR, out, cases := runReplay(repo, rel, src, 300)
 		fb := map[string]interface{}{"function": rep.Key, "bounded": true, "bound": fmt.Sprintf("all strings over %q up to length %d", alpha, n), "cases": cases, "failed": failedR}
@@ -464,14 +457,7 @@ func buildReplay(w *World, id string, o *Obligation, e *Enc, repo, verif string,
 		}
 	}
 	// 2. witness search over the replay domain
-	alpha, n := "a.$*>", 5
-	if d := e.spec.Domain; d != "" {
-		f := strings.Fields(d)
-		if len(f) >= 2 {
-			alpha = f[0]
-			n, _ = strconv.Atoi(f[1])
-		}
-	}
+	alpha, n := parseDomain(e.spec.Domain, 5)
 	src := genReplay(w, e.spec, pkgName, nil, alpha, n)
 	failed, out, cases := runReplay(repo, rel, src, 120)
 	rf.TestSource, rf.TestOutput = src, tail(out, 40)
@@ -565,4 +551,23 @@ func replayMain(id, path, repo string) {
 		os.Exit(1)
 	}
 	fmt.Println("replay passes on the current tree")
+}
+
+// parseDomain reads `replay_domain <maxlen> "<alphabet>"`.
+func parseDomain(d string, defLen int) (string, int) {
+	alpha, n := "a.$*>", defLen
+	d = strings.TrimSpace(d)
+	if d == "" {
+		return alpha, n
+	}
+	f := strings.SplitN(d, " ", 2)
+	if k, err := strconv.Atoi(f[0]); err == nil {
+		n = k
+	}
+	if len(f) == 2 {
+		if s, err := strconv.Unquote(strings.TrimSpace(f[1])); err == nil {
+			alpha = s
+		}
+	}
+	return alpha, n
 }
